@@ -140,6 +140,16 @@ def cases(tier):
     return out
 
 
+def _returned(res):
+    """JSON-able rendering of whatever the function returned (never raises)."""
+    if res is None:
+        return None
+    try:
+        return [[np.asarray(p) for p in r] if isinstance(r, list) else np.asarray(r) for r in res]
+    except Exception:
+        return repr(res)[:300]
+
+
 class _V:
     def __init__(self, out):
         self.out = out
@@ -257,7 +267,7 @@ def _part_lines(case, out, V):
                 err, detail, res = "raised on valid input", repr(e), None
             if err:
                 V.add("lines_by_polygon: " + err, cat=cls, detail=detail, polygon=poly, pts=pts, edges=edges,
-                      returned=None if res is None else [np.asarray(r) for r in res])
+                      returned=_returned(res))
                 out.ev(f"VIOLATION/lines/{name}/{cls}", key)
             else:
                 out.ev(f"lines/{name}/{how}/{cls}" if how == "single" else f"lines/{name}/pair", key)
@@ -420,7 +430,7 @@ def _part_polys(case, out, V):
                 V.add("polygons_by_polyhedron: " + err, cat=f"{contact}/{regime}", detail=detail, polyhedron=ph,
                       polygons=[[[float(x) for x in p] for p in q] for q in plist], contact=contact, regime=regime,
                       exact_area=0.5 * math.sqrt(float(a2)),
-                      returned=None if res is None else [[np.asarray(p) for p in res[0]], np.asarray(res[1])])
+                      returned=_returned(res))
                 out.ev(f"VIOLATION/{cls}", ("p", ph, pi) if nontriv else None)
             else:
                 out.ev(cls + ("" if how == "single" else "/list"), ("p", ph, pi) if nontriv else None)
@@ -443,14 +453,30 @@ def run_case(case) -> Outcome:
     return out
 
 
+_KNOWN_KEYS = {
+    "coplanar-with-face": "C44-polygon-coplanar-with-polyhedron-face",
+    "plane-contains-edge": "C44-polygon-plane-contains-polyhedron-edge",
+    "edges-in-parallel-face-planes": "C44-polygon-edges-in-parallel-face-planes",
+}
+
+
 def known_finding(case, viol):
-    """Narrow predicates for two families of degenerate placements (see report)."""
-    w = viol.get("what", "")
-    if not w.startswith("polygons_by_polyhedron"):
+    """Three exactly characterised degenerate placements of a polygon relative to the
+    polyhedron (see ``_contact``). The class is recomputed here from the concrete *input*
+    (polyhedron name + polygon coordinates, exact rational kernel) -- never from the kind of
+    failure -- so any failure for an input outside these classes stays a VIOLATION."""
+    try:
+        if not viol.get("what", "").startswith("polygons_by_polyhedron"):
+            return None
+        ph = viol["polyhedron"]
+        hs = _halfspaces(ph)
+        classes = set()
+        for q in viol["polygons"]:
+            poly = tuple(tuple(X.F(x).limit_denominator(64) for x in p) for p in q)
+            if any(X.F(x) != y for p, pe in zip(q, poly) for x, y in zip(p, pe)):
+                return None  # not a lattice input of this check
+            classes.add(_contact(poly, hs, ph))
+        hit = [c for c in _KNOWN_KEYS if c in classes]  # priority order of _contact
+        return _KNOWN_KEYS[hit[0]] if hit else None
+    except Exception:
         return None
-    keys = {
-        "coplanar-with-face": "C44-polygon-coplanar-with-polyhedron-face",
-        "plane-contains-edge": "C44-polygon-plane-contains-polyhedron-edge",
-        "edges-in-parallel-face-planes": "C44-polygon-edges-in-parallel-face-planes",
-    }
-    return keys.get(viol.get("contact"))
